@@ -547,6 +547,8 @@ class Data:
 
         ar_max = array.max()
         ar_min = array.min()
+        #  (work on a copy: the array belongs to the caller)
+        array = np.array(array, dtype='float64')
         actual_range = np.array([ar_min, ar_max])
 
         if var_type == 'float64':
